@@ -86,6 +86,17 @@ PushPol(e, k, acc, xs, log) ==
        ELSE [e |-> e, log |-> Append(log, x), rej |-> TRUE]
 
 (***************************************************************************)
+(* Transfer hands the source elements to the destination ONE Push call per *)
+(* element, so a policy rejection ends only that one-element batch: the    *)
+(* remaining elements are still offered (and the error is recorded).       *)
+(***************************************************************************)
+RECURSIVE PushEachPol(_, _, _, _, _)
+PushEachPol(e, k, acc, xs, rej) ==
+  IF xs = <<>> THEN [e |-> e, rej |-> rej]
+  ELSE LET r == PushPol(e, k, acc, <<Head(xs)>>, <<>>) IN
+       PushEachPol(r.e, k, acc, Tail(xs), rej \/ r.rej)
+
+(***************************************************************************)
 (* Defrag (property level): every nil run shorter than the scan limit =>   *)
 (* exactly the non-nil elements in order.                                  *)
 (***************************************************************************)
@@ -254,7 +265,7 @@ Step2(src, dst, dform) ==
   IF ~src.live \/ ~dst.live \/ dform = "foreign" \/ ReadOnly(dst) THEN no
   ELSE IF dst.cap > 0 /\ Len(src.e) > dst.cap - Len(dst.e) THEN no
   ELSE IF dst.haspol
-       THEN LET r == PushPol(dst.e, dst.cap, dst.acc, src.e, <<>>) IN
+       THEN LET r == PushEachPol(dst.e, dst.cap, dst.acc, src.e, FALSE) IN
             [src |-> src,
              dst |-> [dst EXCEPT !.e = r.e, !.err = IF r.rej THEN "set" ELSE dst.err],
              ret |-> <<B2S(r.e = dst.e \o src.e)>>]
@@ -276,7 +287,7 @@ Obs(s) ==
      back |-> <<Nil, "false">>, bits |-> <<>>, ronly |-> "false", paren |-> "false",
      padded |-> "true", cannest |-> "false", nesting |-> "false", err |-> "none",
      canmtx |-> "false", id |-> "unspecified", cat |-> "", delim |-> "", sym |-> "",
-     enc |-> <<>>, isenc |-> "false", elems |-> <<>>, integ |-> "ok"]
+     enc |-> <<>>, isenc |-> "false", elems |-> <<>>, integ |-> "ok", locked |-> "false"]
   ELSE
     [init |-> "true", len |-> L, empty |-> B2S(L = 0),
      cap |-> IF s.cap > 0 THEN s.cap ELSE -1,
@@ -291,6 +302,6 @@ Obs(s) ==
      nesting |-> B2S(\E n \in 1..L : IsStackVal(s.e[n])),
      err |-> s.err, canmtx |-> B2S(s.mtx), id |-> s.id, cat |-> s.cat,
      delim |-> s.delim, sym |-> s.sym, enc |-> s.enc, isenc |-> B2S(Len(s.enc) > 0),
-     elems |-> s.e, integ |-> "ok"]
+     elems |-> s.e, integ |-> "ok", locked |-> "false"]
 
 =============================================================================
